@@ -17,7 +17,7 @@ TRUSTED_BASE = ["os.walk, the import system and Python's re (identifier / tests 
 ASSUMPTIONS = ['no symlinks; in CLI cases distinct files map to distinct module names (generator rejects collisions: '
                'Python itself would import only one of them)']
 
-DIRN = ['pkg', 'tests', 'ftests', 'sub', 'my-data', 'node_modules', '.git', '__pycache__', 'CVS', 't2', 'tests_more', '9lives', 'deep']
+DIRN = ['pkg', 'tests', 'ftests', 'sub', 'my-data', 'node_modules', '.git', '__pycache__', 'CVS', 't2', 'tests_more', '9lives', 'deep', 'pkg2', 'subs']
 FILEN = ['tests.py', 'test_a.py', 'test_b.py', 'testing.py', 'mod.py', '__init__.py', 'ftests.py', 'tests.txt',
          'test_c.pyc', 'tests.pyc', '.py', 'test_.py', 'README', 'test_a.pyc', 'tests_x.py', '__init__.pyc']
 PATS = [[], [], ['--tests-pattern', '^f?tests'], ['--test-file-pattern', '^test_[ab]'],
@@ -65,6 +65,16 @@ def generate(rng, tier, rep):
     n = {'quick': 200, 'thorough': 2000, 'search': 500}[tier]
     ncli = {'quick': 48, 'thorough': 300, 'search': 0}[tier]
     cases = []
+    # fixed --package cases: sibling packages whose names are prefixes of each other, nested packages, repeated packages
+    leaf = [['f', 'tests.py', ''], ['f', '__init__.py', ''], ['f', 'test_a.py', '']]
+    ptree = [['d', 'pkg', leaf + [['d', 'sub', list(leaf)], ['d', 'subs', list(leaf)]]], ['d', 'pkg2', list(leaf)], ['f', 'tests.py', '']]
+    if tier != 'search':
+        for k, sp in enumerate([['pkg', 'pkg2'], ['pkg2', 'pkg'], ['pkg.sub', 'pkg.subs'], ['pkg.subs', 'pkg.sub'], ['pkg', 'pkg.sub'],
+                                ['pkg.sub', 'pkg'], ['pkg', 'pkg'], ['pkg2']]):
+            cases.append({'tree': ptree, 'roots': [['--path', []]], 'flags': [], 'extra_ign': [], 'usecompiled': False, 'spkgs': sp,
+                          'mode': 'direct', 'order_seed': k, 'mpats_given': [], 'topname': 'p%d' % k})
+            rep.count('mode=direct')
+            rep.count('with --package')
     while len(cases) < n:
         i = len(cases)
         cli = i < ncli
@@ -90,12 +100,18 @@ def generate(rng, tier, rep):
             for p in mp:
                 flags += ['-m', p]
         spkgs = []
-        if not cli and rng.random() < 0.25:
+        if not cli and rng.random() < 0.4:
             # --package / -s: restrict the walk to the directories of some packages below the search paths
             cands = sorted(set(tuple(d[len(r[1]):]) for r in roots for d in ds if len(d) > len(r[1]) and list(d[:len(r[1])]) == list(r[1])
                                and all(x.replace('_', 'a').isalnum() and not x[0].isdigit() for x in d[len(r[1]):])))
-            for rel in rng.sample(cands, min(len(cands), rng.choice([1, 1, 2]))):
-                spkgs.append('.'.join(rel))
+            # two packages whose directory paths are string prefixes of each other (pkg.tests / pkg.tests_more) when there are any
+            pairs = [(a, b) for a in cands for b in cands if a != b and a[:-1] == b[:-1] and b[-1].startswith(a[-1])]
+            if pairs and rng.random() < 0.85:
+                a, b = rng.choice(pairs)
+                spkgs = ['.'.join(a), '.'.join(b)]
+            else:
+                for rel in rng.sample(cands, min(len(cands), rng.choice([1, 1, 2]))):
+                    spkgs.append('.'.join(rel))
         c = {'tree': tree, 'roots': roots, 'flags': flags, 'extra_ign': extra, 'usecompiled': usec, 'spkgs': spkgs,
              'mode': 'cli' if cli else 'direct', 'order_seed': rng.randint(0, 10 ** 6), 'mpats_given': mp,
              'topname': rng.choice(['c%d' % i, 'tests', 'c%d' % i])}
